@@ -89,15 +89,23 @@ func (k Keeper) SendInflationaryRewards(ctx context.Context, coins sdk.Coins) er
 	}
 	quarter := coins.AmountOf(layer.BondDenom).QuoRaw(4)
 	threequarters := coins.AmountOf(layer.BondDenom).Sub(quarter)
-	outputs := []banktypes.Output{
-		{
+	// a provision of a few loya (block times one or two milliseconds apart) has an empty quarter,
+	// and the bank module rejects an output without coins
+	outputs := make([]banktypes.Output, 0, 2)
+	if threequarters.IsPositive() {
+		outputs = append(outputs, banktypes.Output{
 			Address: authtypes.NewModuleAddressOrBech32Address(types.TimeBasedRewards).String(),
 			Coins:   sdk.NewCoins(sdk.NewCoin(layer.BondDenom, threequarters)),
-		},
-		{
+		})
+	}
+	if quarter.IsPositive() {
+		outputs = append(outputs, banktypes.Output{
 			Address: authtypes.NewModuleAddressOrBech32Address(authtypes.FeeCollectorName).String(),
 			Coins:   sdk.NewCoins(sdk.NewCoin(layer.BondDenom, quarter)),
-		},
+		})
+	}
+	if len(outputs) == 0 {
+		return nil
 	}
 	moduleAddress := authtypes.NewModuleAddressOrBech32Address(types.ModuleName)
 	inputs := banktypes.NewInput(moduleAddress, sdk.NewCoins(sdk.NewCoin(layer.BondDenom, threequarters.Add(quarter))))
